@@ -90,7 +90,7 @@ ODD_STR = ['', ' ', '\n', 'a', 'A', '_', '0', 'VCPU', 'CUSTOM_', 'CUSTOM_A', 'CU
            'all', 'unknown', 'allx', 'xunknown', '1', '01', '10', '1 ', '-1', '1.0', '\u0661', '_A', 'a-b_C9', 'a.b', 'a b',
            'resources1', 'resources', 'resources01', 'resources_A', 'required' + 'k' * 64, 'required' + 'k' * 65,
            'member_of1\n', 'in_tree-x', 'null', 'true']
-NUMS = [0, 1, -1, 2, 5, 2147483647, 2147483648, -2147483648, 10 ** 20, 10 ** 40, 1.0, 1.5, 0.5, -0.0, 0.0, 2.0, 1e10, 1e-300,
+NUMS = [-10 ** 400, 10 ** 400, -10 ** 40, 0, 1, -1, 2, 5, 2147483647, 2147483648, -2147483648, 10 ** 20, 10 ** 40, 1.0, 1.5, 0.5, -0.0, 0.0, 2.0, 1e10, 1e-300,
         3.40282e+38, 3.4028200000000004e+38, 3.402819e+38, 1e39, 2147483647.0, 2147483648.0, 2147483647.5, 0.9999999999999999,
         1.0000000000000002, float('nan'), float('inf'), float('-inf'), 4.0, 1e308, -1e308, 4.000000000000001]
 
@@ -289,7 +289,8 @@ def boundary_docs(base, s):
         t = sc.get('type')
         ts = t if isinstance(t, list) else [t]
         if 'integer' in ts or 'number' in ts:
-            vals = [0, 1, -1, 1.0, 1.5, True, None, '1', float('nan'), float('inf')]
+            vals = [0, 1, -1, 1.0, 1.5, True, None, '1', float('nan'), float('inf'), float('-inf'), -10 ** 40, -10 ** 400, 10 ** 400,
+                    -1e308, 2 ** 53 + 1]
             for b in (sc.get('minimum'), sc.get('maximum')):
                 if b is not None:
                     ib = int(b)
